@@ -188,12 +188,19 @@ pub(crate) fn run(seed: u64, n: u64, out: &mut Out) {
             let base = serve_block_filters(&bc, start, honest_batch);
             let mut filters: Vec<packed::Bytes> = base.filters().into_iter().collect();
             let mut hashes: Vec<packed::Byte32> = base.block_hashes().into_iter().collect();
-            match rng.below(16) {
+            // the window after a restart or a fork rollback: records are pending in the store, the in-memory map is still empty
+            // (the 3 s timer has not recovered them yet); a late or duplicate answer (start not continuous) is likely then
+            let window = rng.chance(1, 5);
+            if window { if let Ok(mut g) = net.peers.matched_blocks().write() { g.clear(); } }
+            match if window && rng.chance(1, 2) { 2 } else { rng.below(16) } {
                 0 if !filters.is_empty() => { what = "tampered-filter"; let j = rng.below(filters.len() as u64) as usize; let mut b = filters[j].raw_data().to_vec(); if b.is_empty() { b.push(1); } else { let k = rng.below(b.len() as u64) as usize; b[k] ^= 1 << rng.below(8); } filters[j] = ckb_types::bytes::Bytes::from(b).pack(); }
                 1 if !filters.is_empty() => { what = "foreign-filter"; let j = rng.below(filters.len() as u64) as usize; filters[j] = bc.filters[rng.range(1, tip) as usize].clone(); }
                 2 => { what = "shifted-start"; start = match rng.below(3) { 0 => start + 1, 1 => start.saturating_sub(1), _ => rng.range(0, tip + 3) }; }
                 3 if !hashes.is_empty() => { what = "count-mismatch"; if rng.chance(1, 2) { hashes.pop(); } else { hashes.push(bc.chain.headers[1].hash()); } }
-                4 if !hashes.is_empty() => { what = "substituted-block-hash"; let j = rng.below(hashes.len() as u64) as usize; hashes[j] = if rng.chance(2, 3) { bc.chain.headers[rng.range(1, tip) as usize].hash() } else { other.chain.headers[other.tip() as usize].hash() }; }
+                4 | 12 if !hashes.is_empty() => { what = "substituted-block-hash";
+                    // mostly at a position whose block touches a registered script (only those end up in a record)
+                    let touching: Vec<usize> = (0..hashes.len()).filter(|j| reg.iter().any(|r| bc.touches(start + *j as u64, &pool[r.0]))).collect();
+                    let j = if !touching.is_empty() && rng.chance(3, 4) { *rng.pick(&touching) } else { rng.below(hashes.len() as u64) as usize }; hashes[j] = if rng.chance(1, 2) { bc.chain.headers[rng.range(1, tip) as usize].hash() } else { other.chain.headers[other.tip() as usize].hash() }; }
                 5 => { what = "empty"; filters.clear(); hashes.clear(); }
                 6 => { what = "unproven-peer"; peer = unproven; }
                 7 => { what = "unknown-peer"; peer = stranger; }
@@ -330,6 +337,14 @@ pub(crate) fn run(seed: u64, n: u64, out: &mut Out) {
                 // the periodic tick recovers matched blocks from the store
                 let t = net.fp_tick(GET_BLOCK_FILTERS_TOKEN);
                 pump_downloads(&mut net, &bc, t.sent, &mut problems);
+            }
+            // after the (honest) proofs: whatever is marked proved in a pending record is a block of the proven chain - a hash the
+            // server reported missing stays unproved
+            {
+                let mem: Vec<(packed::Byte32, bool)> = net.peers.matched_blocks().read().map(|g| g.iter().map(|(h, v)| (h.pack(), v.0)).collect()).unwrap_or_default();
+                if let Some((h, _)) = mem.iter().find(|(h, p)| *p && bc.chain.number_of(h).is_none()) {
+                    problems.push(format!("[C06-unproven-block-marked-proved] after the block proofs the matched block {:#x} is marked proved although no proof covers it (it is not on the proven chain: the server reported it missing)", h));
+                }
             }
             if what == "substituted-block-hash" && hashes.iter().any(|h| h == &other.chain.headers[other.tip() as usize].hash()) && min_after > min_before {
                 // the named block is not on the proven chain, so it can never be proven; the attacker sends its body anyway
